@@ -116,8 +116,8 @@ def is_scalar(opd):
     return opd is not None and opd["t"] == "s"
 
 
-def _call(case):
-    L, R = build(case["l"]), build(case.get("r"))
+def _call(case, shared_left=None):
+    L, R = (shared_left if shared_left is not None else build(case["l"])), build(case.get("r"))
     op = case["op"]
     if op in BIN:
         return BIN[op](L, R)
@@ -160,10 +160,30 @@ def _tables(case):
     return a, b, res, C.ranks(res)
 
 
+def _subcases(case):
+    return [dict(op=case["op"], l=case["l"], r=r, lo=case.get("lo"), hi=case.get("hi")) for r in case["rs"]]
+
+
 def impl(case):
     from dyce import H
 
-    h = _call(case)
+    if "rs" in case:
+        # ONE left object, several right operands in a row (results must not depend on earlier calls)
+        L = build(case["l"])
+        outs = []
+        for sub in _subcases(case):
+            try:
+                outs.append(_impl_one(sub, L))
+            except Exception as e:  # noqa: BLE001
+                outs.append("exc " + C.exc_name(e))
+        return " || ".join(outs)
+    return _impl_one(case, None)
+
+
+def _impl_one(case, shared_left):
+    from dyce import H
+
+    h = _call(case, shared_left)
     if not isinstance(h, H):
         return "not-H " + type(h).__name__
     _, _, _, table = _tables(case)
@@ -177,6 +197,18 @@ def impl(case):
 
 
 def oracle(case):
+    if "rs" in case:
+        outs = []
+        for sub in _subcases(case):
+            try:
+                outs.append(_oracle_one(sub))
+            except Exception as e:  # noqa: BLE001
+                outs.append("exc " + C.exc_name(e))
+        return " || ".join(outs)
+    return _oracle_one(case)
+
+
+def _oracle_one(case):
     """the sentence of the property, by brute force"""
     a, b, res, table = _tables(case)
     agg = Counter()
@@ -217,6 +249,12 @@ def _opd_tokens(opd, flat):
 
 
 def model(case):
+    if "rs" in case:
+        return [_model_one(sub) for sub in _subcases(case)]
+    return _model_one(case)
+
+
+def _model_one(case):
     try:
         a, b, res, table = _tables(case)
     except Exception:
@@ -237,10 +275,12 @@ def model(case):
 
 
 def model_post(case, out):
-    return " ".join(out.split())
+    return " || ".join(" ".join(p.split()) for p in out.split(" || "))
 
 
 def classify(case, got):
+    if "rs" in case:
+        return "%s/sequence-on-one-object" % case["op"]
     l, r = case["l"], case.get("r")
     return "%s/%s%s" % (case["op"], l["t"], r["t"] if r else "")
 
@@ -320,6 +360,16 @@ def _rand_opd(rnd, kind, allow_scalar=True, allow_pool=True):
 def generate(rnd, tier, scale):
     n = int((2000 if tier == "quick" else 20000) * scale)
     ops = list(BIN) + list(CMP) + ["within", "vs"] + list(UN) + ["is_even", "is_odd"]
+    for _ in range(n // 8):
+        # the same left object combined with a family of equal-but-different right operands
+        op = rnd.choice(["add", "sub", "mul", "lt", "eq", "ge", "vs", "floordiv"])
+        base = gen.rand_h(rnd, 3, "int", counts=(1, 1, 2, 3))
+        if op == "floordiv":
+            base = [[o, c] for o, c in base if C.dec_out(o) != 0] or [["i:1", 1]]
+        fam = [base, gen.scale_h(base, 2), base + [[C.enc_out(rnd.choice([41, 57])), 0]], gen.scale_h(base, 3)]
+        rnd.shuffle(fam)
+        rs = [{"t": "h", "items": f} if rnd.random() < 0.8 else {"t": "p", "dice": [f]} for f in fam[: rnd.randint(2, 4)]]
+        yield dict(op=op, l=_rand_opd(rnd, "int", allow_scalar=False), rs=rs)
     for _ in range(n):
         op = rnd.choice(ops)
         kind = rnd.choice(["int", "int", "neg", "frac", "bool", "float"])
